@@ -163,8 +163,22 @@ SweepExt ==
   \cup UNION {{RawBeh(s, Opt(FALSE, as2, p, p)) : s \in ExtShapes(as2), p \in BOOLEAN} : as2 \in BOOLEAN}
   \cup {RawBeh(One(a), Opt(FALSE, FALSE, FALSE, FALSE)) : a \in AttrVariants(FALSE) \ {Counted("unknown", 4000)}}
 
+(* ---- sweep "openinner": capabilities whose value has inner length fields (FQDN, software version) and the
+   tuple capabilities, each last in the OPEN, followed by another capability, and followed by another
+   parameter; FQDN also with names as long as the TLV allows (received octets: NewCapFQDN truncates) ---- *)
+InnerCaps == {Cap("fqdn", 2), Cap("fqdn", 20), Cap("fqdn", 130), Cap("softver", 2), Cap("softver", 13),
+              Cap("addpath", 2), Cap("gr", 2), Cap("llgr", 2), Cap("extnh", 2), Cap("mp", 1)}
+SweepOpenInner ==
+  {Beh(Open(ps), Opt(FALSE, FALSE, FALSE, FALSE)) :
+      ps \in UNION {{<<<<c>>>>, <<<<c, Cap("as4", 0)>>>>, <<<<c>>, <<Cap("rr", 0), Cap("mp", 0)>>>>,
+                     <<<<Cap("mp", 0), c>>>>} : c \in InnerCaps}}
+  \cup {RawBeh(Open(ps), Opt(FALSE, FALSE, FALSE, FALSE)) :
+      ps \in {<<<<Cap("fqdn", 251)>>>>, <<<<Cap("fqdn", 200), Cap("as4", 0)>>>>,
+              <<<<Cap("fqdn", 200)>>, <<Cap("softver", 40)>>>>}}
+
 Behaviours ==
   CASE Sweep = "attr" -> SweepAttr
+    [] Sweep = "openinner" -> SweepOpenInner
     [] Sweep = "ext"  -> SweepExt
     [] Sweep = "nlri" -> SweepNlri
     [] Sweep = "cap"  -> SweepCap
